@@ -3,6 +3,7 @@
 // Track dump through the C API, light-weight track creation, and the table-level
 // playlist_entity_table operations.
 #include <algorithm>
+#include <cstdio>
 #include <optional>
 #include <set>
 
@@ -132,7 +133,8 @@ DJV_CMD(v2_raw, "v2.raw")
                                    "FROM Playlist ORDER BY id");
     o += " PlaylistEntity" +
          raw_query(h, "SELECT id, listId, trackId, nextEntityId, membershipReference, "
-                      "databaseUuid = (SELECT uuid FROM Information) FROM PlaylistEntity ORDER BY id");
+                      "CASE WHEN databaseUuid = (SELECT uuid FROM Information) THEN 0 "
+                      "ELSE CAST(substr(databaseUuid, 25) AS INTEGER) END FROM PlaylistEntity ORDER BY id");
     o += " Track" + raw_query(h, "SELECT id FROM Track ORDER BY id");
     o += " seq" + raw_query(h, "SELECT IFNULL((SELECT seq FROM sqlite_sequence WHERE name = 'Playlist'), 0), "
                                "IFNULL((SELECT seq FROM sqlite_sequence WHERE name = 'PlaylistEntity'), 0), "
@@ -141,13 +143,29 @@ DJV_CMD(v2_raw, "v2.raw")
 }
 
 // ---- table level (playlist_entity_table / playlist_table of the same connection)
+// Database uuid tags: 0 = the library's own uuid (Information.uuid), k > 0 = the fixed foreign uuid
+// 00000000-0000-0000-0000-<k as 12 digits> (a playlist may reference tracks of another database).
+static std::string uuid_of_tag(ev2::engine_library& lib, int64_t tag)
+{
+    if (tag == 0) return lib.information().get().uuid;
+    char buf[64];
+    snprintf(buf, sizeof buf, "00000000-0000-0000-0000-%012lld", (long long)tag);
+    return buf;
+}
+static int64_t tag_of_uuid(ev2::engine_library& lib, const std::string& u)
+{
+    if (u == lib.information().get().uuid) return 0;
+    if (u.size() == 36 && u.compare(0, 24, "00000000-0000-0000-0000-") == 0) return std::stoll(u.substr(24));
+    return -1;
+}
+// pe.add <list> <track> <uuid-tag> <throw_if_duplicate>
 DJV_CMD(pe_add, "pe.add")
 {
     auto& lib = v2lib();
     ev2::playlist_entity_row row{
-        ev2::PLAYLIST_ENTITY_ROW_ID_NONE, parse_i64(a.at(1)), parse_i64(a.at(2)), lib.information().get().uuid,
+        ev2::PLAYLIST_ENTITY_ROW_ID_NONE, parse_i64(a.at(1)), parse_i64(a.at(2)), uuid_of_tag(lib, parse_i64(a.at(3))),
         ev2::PLAYLIST_ENTITY_NO_NEXT_ENTITY_ID, ev2::PLAYLIST_ENTITY_DEFAULT_MEMBERSHIP_REFERENCE};
-    auto id = lib.playlist_entity().add_back(row, a.at(3) == "1");
+    auto id = lib.playlist_entity().add_back(row, a.at(4) == "1");
     return "id=" + std::to_string((long long)id);
 }
 DJV_CMD(pe_remove, "pe.remove")
@@ -162,7 +180,7 @@ DJV_CMD(pe_clear, "pe.clear")
     lib.playlist_entity().clear(parse_i64(a.at(1)));
     return "";
 }
-// pe.list <list>: get_for_list as entity:track pairs in order, then track_ids
+// pe.list <list>: get_for_list as entity:track:uuid-tag triples in order, then track_ids
 DJV_CMD(pe_list, "pe.list")
 {
     auto& lib = v2lib();
@@ -170,7 +188,8 @@ DJV_CMD(pe_list, "pe.list")
     bool first = true;
     for (auto& r : lib.playlist_entity().get_for_list(parse_i64(a.at(1))))
     {
-        o += (first ? "" : ",") + std::to_string((long long)r.id) + ":" + std::to_string((long long)r.track_id);
+        o += (first ? "" : ",") + std::to_string((long long)r.id) + ":" + std::to_string((long long)r.track_id) + ":" +
+             std::to_string((long long)tag_of_uuid(lib, r.database_uuid));
         first = false;
     }
     o += "] ";
